@@ -92,7 +92,7 @@ fn draws(_env: &Env, src: &mut Src<'_>) -> CaseResult {
                 0..=5 => 1,
                 6 => 2,
                 7 => 32,
-                8 => 2048,
+                8 => 2049, // offsets 0..=2048: the cap is inclusive
                 _ => 8,
             };
             kinds.push(format!("blocks:{blocks}"));
@@ -105,7 +105,7 @@ fn draws(_env: &Env, src: &mut Src<'_>) -> CaseResult {
                     }
                     _ => {
                         // chunks of 8 blocks (or fewer for the small sizes)
-                        if blocks >= 8 {
+                        if blocks >= 8 && blocks % 8 == 0 {
                             p.generate_chunks_iter::<_, U8>(index).take(blocks / 8).flat_map(|(l, r)| l.into_iter().zip(r).collect::<Vec<_>>()).collect()
                         } else {
                             p.generate_chunks_iter::<_, U1>(index).take(blocks).map(|(l, r)| (l[0], r[0])).collect()
@@ -334,7 +334,7 @@ fn sweep(env: &Env, src: &mut Src<'_>) -> CaseResult {
 pub fn subs(_env: &Env) -> Vec<Sub> {
     vec![
         Sub::random("draws", 400, 3000, 100_000, draws,
-            "three endpoints built from generated 32-byte seeds; 2-6 steps from a pool with near-duplicates and prefixes; indices {0,1,2^31,u32::MAX-1,u32::MAX,2^k,random}; draws of 1, 2, 8, 32 and 2048 blocks (offset cap); every block: H_i.right = H_{i+1}.left, equals the independent HKDF-SHA256 -> AES-256 (AES(i) xor i) reference, and all blocks of the case are pairwise distinct; typed draws (three prime fields, BA3..BA256, Gf32Bit) equal the conversion of the reference block; non-trivial = at least one block compared")
+            "three endpoints built from generated 32-byte seeds; 2-6 steps from a pool with near-duplicates and prefixes; indices {0,1,2^31,u32::MAX-1,u32::MAX,2^k,random}; draws of 1, 2, 8, 32 and 2049 blocks (offsets 0..=2^11, the inclusive cap); every block: H_i.right = H_{i+1}.left, equals the independent HKDF-SHA256 -> AES-256 (AES(i) xor i) reference, and all blocks of the case are pairwise distinct; typed draws (three prime fields, BA3..BA256, Gf32Bit) equal the conversion of the reference block; non-trivial = at least one block compared")
         .shrink_iters(100),
         Sub::exhaustive("api_misuse", 6, 6, api_misuse,
             "offset cap inclusive / beyond; the same (step, index) twice panics; sequential after indexed and sequential twice panic; indexed twice works; sequential streams of neighbours agree"),
